@@ -152,6 +152,14 @@ class SDict(dict):
     self.sched.checkpoint()
     return dict.__getitem__(self, k)
 
+  def get(self, k, d=None):
+    self.sched.checkpoint()
+    return dict.get(self, k, d)
+
+  def pop(self, *a):
+    self.sched.checkpoint()
+    return dict.pop(self, *a)
+
   def __setitem__(self, k, v):
     self.sched.checkpoint()
     dict.__setitem__(self, k, v)
@@ -220,6 +228,23 @@ class SLock:
     self.release()
 
 
+class ThreadingShim:
+  """Stands in for the `threading` module inside gin.config: locks created while the scheduled threads run are
+  cooperative ones too (a real lock held across a scheduling point would stall the scheduler, not the thread)."""
+
+  def __init__(self, sched):
+    self._sched = sched
+
+  def Lock(self):      # noqa: N802
+    return SLock(self._sched, reentrant=False)
+
+  def RLock(self):     # noqa: N802
+    return SLock(self._sched, reentrant=True)
+
+  def __getattr__(self, name):
+    return getattr(threading, name)
+
+
 def build(gin, sched):
   cfg = gin.config
   g = {'__name__': 'pm'}
@@ -230,13 +255,19 @@ def build(gin, sched):
   gin.bind_parameter('a/b/pm.g.z', [1, 2, 3])
   if sched is not None:
     SDict.sched = sched
-    for name in ('_SINGLETONS', '_OPERATIVE_CONFIG'):
+    # the shared tables: the two the property names, and any other private module-level dict that is empty at this
+    # point (tables a change of the code may add next to them, e.g. per-key locks)
+    extra = [n for n, v in vars(cfg).items() if n.startswith('_') and n.isupper() and type(v) is dict and not v
+             and n not in ('_SINGLETONS', '_OPERATIVE_CONFIG', '_CONFIG', '_CONFIG_PROVENANCE')]
+    for name in ['_SINGLETONS', '_OPERATIVE_CONFIG'] + extra:
       d = SDict()
-      d.update(getattr(cfg, name))
+      dict.update(d, getattr(cfg, name))
       setattr(cfg, name, d)
     for name in ('_OPERATIVE_CONFIG_LOCK', '_SINGLETONS_LOCK'):
       if hasattr(cfg, name):
         setattr(cfg, name, SLock(sched, reentrant=type(getattr(cfg, name)) is type(threading.RLock())))
+    if hasattr(cfg, 'threading'):
+      cfg.threading = ThreadingShim(sched)
   return fns
 
 
